@@ -75,7 +75,11 @@ SkipNodes(c) ==
     [] c \in {"impl", "trait"} -> {"afn", "aconst", "atype", "afn_ml"}
     [] c = "letd" -> {}
     [] OTHER -> {"let", "exprstmt", "macstmt", "arm", "litfield", "expr", "fn", "struct", "let_ml", "arm_ml",
-                 "closurestmt"}
+                 "closurestmt",
+                 \* attributed expressions in argument / element position (paths that rewrite the
+                 \* last argument of a call do not go through format_expr)
+                 "closurearg_if", "closurearg_block", "closurearg_loop", "callarg", "lastarg",
+                 "tupleelem", "arrayelem", "binop", "retval"}
 Spellings == {"skip", "depr", "cfg_skip", "cfg_depr", "cfg_cfg_skip", "cfg_multi"}
 Cfgs == {"none", "m", "star"}
 
